@@ -288,6 +288,10 @@ pub fn det_case(
     let mut fss = vec![subject_fs];
     subject.fs = 0;
     subject.subject = true;
+    // the options are inputs too: a third of the compiles ask for source information
+    if subject.api == crate::exec::Api::Compile && rng.sub("options").chance(1, 3) {
+        subject.source_info = true;
+    }
     let by = bystanders(corpus, &mut rng.sub("bystanders"), 2);
     let mut by_tasks = Vec::new();
     for (fs, mut t) in by {
